@@ -78,7 +78,10 @@ def main():
         if rc != 0:
             print("DEMO FAILS ON CLEAN TREE\n" + out[-3000:])
         remove_demo()
-    rc, out = sh("git apply --3way %s || git apply %s" % (patch, patch), wt)
+    rc, out = sh("git apply %s" % patch, wt)
+    if rc != 0:
+        sh("git checkout -- . && git clean -fdq", wt)
+        rc, out = sh("patch -p1 -F3 --no-backup-if-mismatch < %s" % patch, wt)
     if rc != 0:
         print("PATCH DOES NOT APPLY\n" + out[-2000:])
         sys.exit(2)
